@@ -122,20 +122,30 @@ def Version.display (v : Version) : Str :=
   (match v.epoch with | some e => (toString e).toList ++ [':'] | none => [])
     ++ v.upstream ++ (match v.revision with | some r => '-' :: r | none => [])
 
-/-- `Relation::version()` (relations.rs:1302-1319); `.error ()` = one of the two `unwrap()`s panics -/
+/-- relations.rs:1317-1326 (after fix 3b0cae0): the concatenated text of all IDENT and COLON
+    *tokens* that are direct children of the VERSION node -/
+def versionText (vc : RNode) : Str :=
+  (vc.children.filterMap fun c =>
+    match c with
+    | .tok k t => if k = .IDENT ∨ k = .COLON then some t else none
+    | .node _ _ => none).flatten
+
+/-- `Relation::version()` (relations.rs:1311-1334); `.error ()` = one of the two `unwrap()`s panics -/
 def version (rel : RNode) : Except Unit (Option (VC × Version)) :=
   match firstChildNode .VERSION rel with
   | none => .ok none
   | some vc =>
-    match firstChildNode .CONSTRAINT vc, firstIdentTok vc with
-    | some c, some v =>
-      match VC.parse c.text with
-      | none => .error ()
-      | some k =>
-        match Version.parse v with
+    match firstChildNode .CONSTRAINT vc with
+    | some c =>
+      if (versionText vc).isEmpty then .ok none
+      else
+        match VC.parse c.text with
         | none => .error ()
-        | some ver => .ok (some (k, ver))
-    | _, _ => .ok none
+        | some k =>
+          match Version.parse (versionText vc) with
+          | none => .error ()
+          | some ver => .ok (some (k, ver))
+    | none => .ok none
 
 /-- `Relation::architectures()` (relations.rs:1416-1427): the IDENT tokens of the first
     ARCHITECTURES child (a `!` negation is dropped, as in the Rust code) -/
@@ -207,7 +217,10 @@ theorem isUpstreamChar_of_ident {c : Char} (h : isIdentChar c = true) : isUpstre
 
 theorem colon_not_ident : isIdentChar ':' = false := by decide
 
-/-- an IDENT token of the lexer (non-empty, identifier characters only) is always a valid
+/-- (Since fix 3b0cae0 the version text handed to `Version::from_str` is `IDENT` or `IDENT:IDENT`; the
+    second case is `Version.parse_epoch_ident` / `Version.parse_written` in Lemmas/RelAccessField.lean:
+    it fails exactly for an all-digit first token >= 2^32.)
+    An IDENT token of the lexer (non-empty, identifier characters only) is always a valid
     `debversion::Version` without epoch, and `Display` gives the token text back: the second
     `unwrap()` of `Relation::version()` cannot fail on a tree built by the parser -/
 theorem Version.parse_ident (s : Str) (hne : s ≠ []) (hid : s.all isIdentChar = true) :
